@@ -260,6 +260,13 @@ func GenSeqFile(t *rapid.T, format string, maxRecs int, allowLong bool) SeqFile 
 		if rapid.IntRange(0, 2).Draw(t, "has-desc") > 0 {
 			r.Desc = genText(t, "desc", 1, 30, true)
 		}
+		if allowLong && longBudget > 0 && rapid.IntRange(0, 24).Draw(t, "long-header") == 0 {
+			// a header line around the readers' 4096-byte line buffer (and twice that)
+			n := rapid.SampledFrom([]int{4080, 4090, 4094, 4095, 4096, 4097, 4100, 8190, 8192, 8200}).Draw(t, "long-header-len")
+			unit := genText(t, "desc-unit", 3, 9, false) + " "
+			r.Desc = strings.Repeat(unit, n/len(unit)+1)[:n-1] + "x"
+			longBudget--
+		}
 		r.Len = GenSeqLen(t, f.Width, allowLong && longBudget > 0)
 		if r.Len > 1000 {
 			longBudget--
